@@ -441,6 +441,31 @@ func Corpus(goPkgBase string, thorough bool) []*File {
 		cf.Opts = "specialname=Size"
 		cf.Only = "gogo"
 	}
+	// --- extensions declared in messages that a traversal of the nested types reaches late: after a map entry
+	// (the synthetic entry type precedes them) and two levels down
+	{
+		f := newFile("deepext", "proto2", goPkgBase)
+		f.std()
+		base := f.msg("Base")
+		f.field(base, "id", 1, "int32", lOpt, "", "")
+		base.ExtensionRange = []*descriptorpb.DescriptorProto_ExtensionRange{{Start: proto.Int32(100), End: proto.Int32(200)}}
+		cat := f.msg("Catalog")
+		f.mapField(cat, "index", 1, "string", "int32")
+		entry := &descriptorpb.DescriptorProto{Name: proto.String("Entry")}
+		f.field(entry, "v", 1, "int32", lOpt, "", "")
+		entry.Extension = append(entry.Extension, &descriptorpb.FieldDescriptorProto{Name: proto.String("note"), Number: proto.Int32(101), Type: kindType["string"].Enum(), Label: lOpt.Enum(), Extendee: proto.String(f.full("Base"))})
+		cat.NestedType = append(cat.NestedType, entry)
+		outer := f.msg("Outer")
+		mid := &descriptorpb.DescriptorProto{Name: proto.String("Mid")}
+		f.field(mid, "w", 1, "int32", lOpt, "", "")
+		scope := &descriptorpb.DescriptorProto{Name: proto.String("Scope")}
+		f.field(scope, "x", 1, "int32", lOpt, "", "")
+		scope.Extension = append(scope.Extension, &descriptorpb.FieldDescriptorProto{Name: proto.String("deep"), Number: proto.Int32(110), Type: kindType["int32"].Enum(), Label: lOpt.Enum(), Extendee: proto.String(f.full("Base"))})
+		mid.NestedType = append(mid.NestedType, scope)
+		outer.NestedType = append(outer.NestedType, mid)
+		f.field(outer, "y", 1, "int32", lOpt, "", "")
+		add(f, false, "extensions declared in a nested message after a map field, and two levels down")
+	}
 	// --- special name that is also the name of a message type and of an extension
 	{
 		f := newFile("specialtype", "proto2", goPkgBase)
